@@ -129,3 +129,48 @@ Check C08_rotates_iff_timestamps.
 Print Assumptions C08_rotates_iff_timestamps.
 Check C08_oracle_timestamps.
 Print Assumptions C08_oracle_timestamps.
+
+(* ------------------------------------------------------------------ start states: append onto content found (proofs: Flw/NumAppendPartition.v,
+   Flw/NumDAppendPartition.v).  The content found in the current file counts for the limit from the first write on. *)
+Require Import FL.Flw.NumRestart FL.Flw.NumAppendPartition FL.Flw.NumDRestart FL.Flw.NumDAppendPartition.
+Local Open Scope nat_scope.
+(* two runs, the second with append: its files are the greedy partition that STARTS with what run 1 left in rCURRENT *)
+Theorem C08_append_partition_numbers c1 c2 m1 m2 t0 off ops1 ops2 closed1 cur1 :
+  numcfg c1 (CSize m1) -> numcfg c2 (CSize m2) -> c_spec c1 = c_spec c2 -> c_append c2 = true ->
+  Forall basic_op ops1 -> Forall basic_op ops2 ->
+  expected_files m1 None (items false ops1) = closed1 ++ [cur1] -> (N.of_nat (length closed1) <= u32_max)%N ->
+  reads c2 (wfs (s_w (fst (run (sys0 t0 off) (OStart c1 :: ops1 ++ [OStop] ++ OStart c2 :: ops2 ++ [OStop])))))
+        (closed1 ++ expected_files m2 (Some cur1) (items false ops2)).
+Proof. exact (numbers_append_partition c1 c2 m1 m2 t0 off ops1 ops2 closed1 cur1). Qed.
+
+(* ... and each write of run 2 rotates iff what is counted - found content included - exceeds the limit (a trigger or flush before
+   the run's first write does nothing: the file is opened lazily, so the prefix is taken from the first write on) *)
+Theorem C08_append_rotates_iff_numbers c1 c2 m1 m2 t0 off ops1 ops2 closed1 cur1 i o b :
+  numcfg c1 (CSize m1) -> numcfg c2 (CSize m2) -> c_spec c1 = c_spec c2 -> c_append c2 = true ->
+  Forall basic_op ops1 -> Forall basic_op ops2 ->
+  expected_files m1 None (items false ops1) = closed1 ++ [cur1] -> (N.of_nat (length closed1) <= u32_max)%N ->
+  nth_error ops2 i = Some o -> (o = OWrite b \/ o = OPlain b) ->
+  nth_error (snd (run (fst (run (sys0 t0 off) (OStart c1 :: ops1 ++ [OStop]))) (OStart c2 :: ops2))) (S i)
+  = Some (ObsRes 0 (m2 <? N.of_nat (length (cur_of (s_run m2 (Some ([], cur1)) (from_first_write (firstn i ops2))))))%N).
+Proof. exact (numbers_append_rotates_iff c1 c2 m1 m2 t0 off ops1 ops2 closed1 cur1 i o b). Qed.
+
+(* any number of runs, each with its own limit, capacity and append flag: the files are the fold of the greedy partition over
+   the runs (runs_files: with append the last file found is continued and counts, without append a new file is started) *)
+Theorem C08_runs_partition_numbers sp t0 off rs :
+  (N.of_nat (length (runs_ops rs)) <= u32_max)%N ->
+  Forall (fun r => c_spec (fst r) = sp /\ (exists m, numcfg (fst r) (CSize m)) /\ Forall basic_op (snd r)) rs ->
+  forall c, c_spec c = sp -> reads c (wfs (s_w (fst (run (sys0 t0 off) (runs_ops rs))))) (runs_files [] rs).
+Proof. exact (numbers_runs_partition sp t0 off rs). Qed.
+
+Theorem C08_runs_partition_numbersdirect sp t0 off rs :
+  (N.of_nat (length (runs_ops rs)) <= u32_max)%N ->
+  Forall (fun r => c_spec (fst r) = sp /\ (exists m, numdcfg (fst r) (CSize m)) /\ Forall basic_op (snd r)) rs ->
+  forall c, c_spec c = sp ->
+    direct_view c (wfs (s_w (fst (run (sys0 t0 off) (runs_ops rs))))) (runs_files [] rs).
+Proof. exact (numbersdirect_runs_partition sp t0 off rs). Qed.
+
+Check C08_append_partition_numbers. Check C08_append_rotates_iff_numbers. Check C08_runs_partition_numbers. Check C08_runs_partition_numbersdirect.
+Print Assumptions C08_append_partition_numbers.
+Print Assumptions C08_append_rotates_iff_numbers.
+Print Assumptions C08_runs_partition_numbers.
+Print Assumptions C08_runs_partition_numbersdirect.
